@@ -7,13 +7,15 @@
     error names the FIRST such leaf in wire order (path, declared type, integer); exactly the events of all earlier
     fields - none for the offending one - have been emitted; exactly the bytes after that field remain.
     (Proofs/Sim6.v: warn-mode simulation + strict/warn agreement + "strict mode never warns".)
-    NOT YET PROVED: the composition for the Command / Response / stream roots (reserved command codes included);
+    The same is proved for COMMANDS and RESPONSES (Proofs/Sim7-10.v), for all tables passing [msg_tables_ok].
+    NOT YET PROVED: the composition for the stream root, and reserved command codes (an unknown command code makes
+    the input structurally inconsistent for the specification, so the theorems do not speak about it);
     decided by the oracle (implementation vs extracted [spec_value_error] at the pinned tables on every
     constrained leaf of generated messages) and the model correspondence.
     Statement file: theorem statements, [exact], Print Assumptions only. *)
 From Coq Require Import ZArith List String Bool.
 From TV Require Import Layout.Types gen.Tables gen.Pinned Base.Bytes Model.Monad Model.Ints Model.Decoder Model.Message Model.Pump
-  Model.Show Spec.Value Spec.Message Proofs.OpLemmas Proofs.Agree Proofs.Sim6 Properties.C20.
+  Model.Show Spec.Value Spec.Message Proofs.OpLemmas Proofs.Agree Proofs.Sim6 Proofs.Sim10 Properties.C20.
 Import ListNotations.
 Open Scope Z_scope.
 
@@ -53,6 +55,25 @@ Theorem C04_raises_iff_some_leaf_out_of_range :
     ((exists evs e rem, decode T true (RType t) bs = (evs, ORaised e rem)) <-> all_valid v = false).
 Proof. exact types_raise_iff_bad_leaf. Qed.
 Print Assumptions C04_raises_iff_some_leaf_out_of_range.
+
+(** every root but a stream: structure types, commands, responses *)
+Theorem C04_types_commands_responses :
+  forall T r bs evs o, msg_tables_ok T = true -> is_stream_root r = false ->
+    spec_value_error T r bs = Some (evs, o) -> decode T true r bs = (evs, o).
+Proof. exact root_first_bad. Qed.
+Print Assumptions C04_types_commands_responses.
+
+Theorem C04_types_commands_responses_pinned :
+  forall r bs evs o, is_stream_root r = false ->
+    spec_value_error Pinned.T r bs = Some (evs, o) -> decode Tables.T true r bs = (evs, o).
+Proof. intros r bs evs o. rewrite C20_pinned. apply root_first_bad. vm_compute. reflexivity. Qed.
+Print Assumptions C04_types_commands_responses_pinned.
+
+Theorem C04_raises_iff_some_leaf_out_of_range_all_roots :
+  forall T r bs vs, msg_tables_ok T = true -> is_stream_root r = false -> sp_root T r bs = Some vs ->
+    ((exists evs e rem, decode T true r bs = (evs, ORaised e rem)) <-> forallb all_valid vs = false).
+Proof. exact root_raises_iff_bad_leaf. Qed.
+Print Assumptions C04_raises_iff_some_leaf_out_of_range_all_roots.
 
 (** strict mode never emits a warning (every root, every state) *)
 Theorem C04_strict_never_warns :
